@@ -24,6 +24,18 @@ def events_for_disc(dfs, d, scratch, eid, curs=(36,), uis=UIS, want_inf=False, w
     else:
         o = common.run(base + ["info", d.colon + "#.*"])
     ev.append(dict(e="info", id=eid, rc=o.rc if o.rc is not None else -1, raw=raws, nm=nms, obs=discs.parse_info(o.out) or []))
+    # the same metadata when the entry is asked for by its own name (the name, punctuation included, is a wildcard without
+    # wildcard characters): only names that no other entry of the disc equals up to case, and without # * . :
+    picked = 0
+    for e_, raw, n in zip(ents, raws, nms):
+        nmb = bytes(n[2])
+        if picked >= 8 or not nmb or any(c in nmb for c in b"#*.:") or n[0] in (35, 42, 46, 58) or nmb.isalnum():
+            continue
+        if sum(1 for m in nms if bytes(m[2]).upper() == nmb.upper() and chr(m[0]).upper() == chr(n[0]).upper()) != 1:
+            continue
+        picked += 1
+        o1 = common.run(base + ["info", "%s%c.%s" % (d.colon, n[0], nmb.decode("latin1"))])
+        ev.append(dict(e="info", id=eid, rc=o1.rc if o1.rc is not None else -1, raw=[raw], nm=[n], obs=discs.parse_info(o1.out) or [], byname=1))
     for cur in curs:
         for ui in uis:
             # the same options in either order (every second disc): --ui must not disturb --dir / --drive given before it
